@@ -14,9 +14,9 @@ from harness import common, heaplib as HL
 
 NAMES = ["a", "b", "c"]
 PFX = ["p", "q"]
-URI = ["u", "v"]
+URI = ["u", "v", ""]                 # "" : falsy but legal
 KEYS = ["k", "l"]
-VALS = ["x", "y", 'z"<&']
+VALS = ["x", "y", 'z"<&', ""]
 
 
 def gen_tree_script(rng, k):
@@ -25,7 +25,7 @@ def gen_tree_script(rng, k):
     parent = [None] * k
     for i in range(k):
         sc.append(("create", rng.choice(NAMES), "n%d" % i if rng.random() < 0.5 else None,
-                   rng.choice([None, "t", "text %d" % i])))
+                   rng.choice([None, "t", "", "text %d" % i])))
     pending = []
     for i in range(k):
         if rng.random() < 0.4:
@@ -44,6 +44,12 @@ def gen_tree_script(rng, k):
     for i in range(1, k):
         if rng.random() < 0.85:
             pending.append(("attach", rng.randrange(i), i, rng.choice([None, None, 0, -1, 1])))
+    # some nodes leave the registry before anything is copied (a live node may be copied after it was
+    # unregistered: its copies must still be registered under fresh ids)
+    wholly = rng.random() < 0.08
+    for i in range(k):
+        if wholly or rng.random() < 0.12:
+            pending.append(("delete", ("obj", i), False))
     rng.shuffle(pending)
     # ns operations after attaches create the interesting sharing; keep the shuffled order
     for c in pending:
@@ -91,7 +97,10 @@ def edits_for(w, n, nxt):
     out = [[("content", n, "EDIT")], [("content", n, None)], [("tail", n, "EDIT")], [("prefix", n, "e")],
            [("attr", n, "newkey", "EDIT")], [("extras", n, "newkey", "EDIT")],
            [("ns", n, "newp", "EDITURI")], [("create", "a", None, None), ("attach", n, nxt, None)],
-           [("create", "a", None, "c"), ("attach", n, nxt, 0)]]
+           [("create", "a", None, "c"), ("attach", n, nxt, 0)],
+           # direct mutation through the exposed dict / list properties (implementation only, not modelled)
+           [("rawattr", n, "rawkey", "EDIT")], [("rawextras", n, "rawkey", "EDIT")], [("rawns", n, "rawp", "EDITURI")],
+           [("create", "a", None, None), ("rawchild", n, nxt)]]
     for k in list(x.attributes)[:2]:
         out.append([("attr", n, k, "EDIT")])
         out.append([("rmattr", n, k)])
@@ -110,14 +119,14 @@ def edits_for(w, n, nxt):
     return out
 
 
+PY_ONLY = ("rmchildren", "rawattr", "rawextras", "rawns", "rawchild")
+
+
 def apply_edit(w, ed):
     for c in ed:
-        if c[0] == "rmchildren":
-            w.objs[c[1]].remove_children()
-        else:
-            r = w.apply(c)
-            if r is not None:
-                return r
+        r = w.apply(c)
+        if r is not None:
+            return r
     return None
 
 
@@ -264,10 +273,21 @@ def run(ctx):
                          f"an edit ({ed[-1][0]}) applied inside the {side} is visible in the other tree",
                          {"kind": "impl-vs-statement", "script": [list(x) for x in full], "edit": [list(x) for x in ed],
                           "edited_tree": side, "edited_object": n, "other_before": before_other, "other_after": after_other})
-            if ei in sampled and not any(c[0] == "rmchildren" for c in ed):
+            if ei in sampled and not any(c[0] in PY_ONLY for c in ed):
                 term2, _, _ = HL.coq_case(full + ed)
                 terms.append(term2)
                 metas.append(full + ed)
+    # ---- one wide tree (more than 256 children: past the small-int cache), statement only
+    wide = [("create", "a", None, None)] + [("create", "b", None, "c%d" % i) for i in range(300)]
+    wide += [("attach", 0, i + 1, None) for i in range(300)] + [("ns", 0, "p", "u"), ("attr", 300, "k", "")]
+    w0, _, _ = HL.run_script(wide)
+    ids0 = set(w0.Node.store.keys()) | {o.id for o in w0.objs}
+    ww, _, rw = HL.run_script(wide + [("copy", 0)])
+    if rw is not None:
+        ctx.fail("C12:raises", f"copying a node with 300 children raised {rw[1]}", {"kind": "impl-vs-statement", "script": "300 children", "raised": rw})
+    else:
+        check_copy_statement(ctx, ww, 0, 301, ids0, [["root with 300 children"], ["copy", 0]])
+        ctx.case(("copy", "wide-300"), True)
     # ---- (B) model vs implementation
     bad, errors = HL.coq_failing(common, "C12", "corr", terms, shard=40)
     ctx.extra["traces_validated_against_impl"] = len(terms) - len(bad)
